@@ -18,6 +18,9 @@ var tString = types.Typ[types.String]
 var tFloat = types.Typ[types.Float64]
 var tError = types.Universe.Lookup("error").Type()
 
+// tWriter stands for io.Writer where the engine itself needs the type (os.Stdout / os.Stderr handles)
+var tWriter = types.NewNamed(types.NewTypeName(token.NoPos, types.NewPackage("io", "io"), "Writer", nil), types.NewInterfaceType(nil, nil).Complete(), nil)
+
 func (x *Exec) constVal(cv constant.Value, ty types.Type) Val {
 	if ty == nil {
 		return Val{C: cv}
@@ -156,6 +159,9 @@ func (x *Exec) objVal(obj types.Object, st *State, pos token.Pos) Val {
 	case *types.Var:
 		if v, ok := st.vars[o]; ok {
 			return v
+		}
+		if o.Pkg() != nil && o.Pkg().Path() == "os" && (o.Name() == "Stdout" || o.Name() == "Stderr") {
+			return x.stdHandle(o.Name())
 		}
 		if o.Pkg() != nil && o.Parent() == o.Pkg().Scope() {
 			// package-level variable: unknown value, stable within the function
@@ -638,6 +644,8 @@ func (x *Exec) evalSelector(n *ast.SelectorExpr, st *State, env *Env) Val {
 					return x.objVal(obj, st, n.Pos())
 				}
 			}
+		} else if id.Name == "os" && (n.Sel.Name == "Stdout" || n.Sel.Name == "Stderr") {
+			return x.stdHandle(n.Sel.Name)
 		} else if id.Name == "math" {
 			switch n.Sel.Name {
 			case "MaxInt", "MaxInt64":
@@ -834,4 +842,14 @@ func (x *Exec) resolveTypeText(txt string) types.Type {
 		panic(unsupported("type " + txt))
 	}
 	return x.resolveTypeExpr(e, &Env{})
+}
+
+// stdHandle: os.Stdout / os.Stderr as opaque writer handles (process-wide streams; ghost state written:/failed: like any
+// io.Writer, initialised at function entry when the body mentions them)
+func (x *Exec) stdHandle(name string) Val {
+	n := "glob_os_" + name
+	if !x.c.declared[n] {
+		x.c.declare(n, fmt.Sprintf("(declare-fun %s () Int)", n))
+	}
+	return Val{T: n, Ty: tWriter}
 }
